@@ -708,6 +708,13 @@ class Interp:
                 raise Raised("IndexError")
             except TypeError as ex:
                 raise AnalysisError(f"absint: subscript failed: {ex}")
+        if isinstance(e, ast.DictComp):
+            import types as _types
+
+            pairs = self.comp(_types.SimpleNamespace(generators=e.generators, elt=ast.Tuple(elts=[e.key, e.value], ctx=ast.Load())), env)
+            return {k: v for k, v in pairs}
+        if isinstance(e, ast.SetComp):
+            return set(self.comp(e, env))
         if isinstance(e, (ast.ListComp, ast.GeneratorExp)):
             return self.comp(e, env)
         if isinstance(e, ast.Lambda):
